@@ -251,6 +251,32 @@ func runPermits(o *Out, r *rand.Rand, thorough bool, _ []string) {
 		}
 	}
 
+	// (3a) offers that cannot be sent at all: more keys than an OFFER may carry, a key longer than a key may be - the slot
+	// comes back although no peer was ever asked
+	for _, kind := range []string{"too_many_keys", "key_too_long", "no_keys"} {
+		target := signRecPad(keyFromSeed(r), net.IP{34, 8, 10, byte(1 + len(kind))}, 7150, 1, 0)
+		a.p.VerifVersionsCacheSet(target, 1)
+		var req *portalwire.OfferRequest
+		switch kind {
+		case "too_many_keys":
+			req = mkReq(65 + r.Intn(3))
+		case "key_too_long":
+			req = mkReq(2)
+			req.Request.(*portalwire.TransientOfferRequest).Contents[1].ContentKey = make([]byte, 2049+r.Intn(10))
+		default:
+			req = mkReq(0)
+		}
+		permit, _ := a.p.Utp.GetOutboundPermit()
+		_, err := a.p.VerifOffer(target, req, permit)
+		free := waitFree(a, false, limit, 1500*time.Millisecond)
+		o.Case(fmt.Sprintf("offerunsendable kind=%s limit=%d", kind, limit), fmt.Sprintf("%s free=%d", errStr(err), free))
+		if free != limit {
+			a.stop()
+			a = startNode(mn, r, nodeOpts{ip: net.IP{34, 5, 5, 1}, port: 9800, versions: []uint8{0, 1}, utpLimit: limit, noWorkers: true})
+			a.p.AddEnr(b.p.Self())
+		}
+	}
+
 	// (3b) shutdown between the ACCEPT and the transfer: the reply of an offer that was sent before Stop() is processed
 	// after it; the transfer goroutine finds its context cancelled - the slot must come back on that exit too
 	for _, version := range []uint8{0, 1} {
